@@ -142,6 +142,14 @@ func SignJWT(ctx context.Context, key crypto.Signer, alg jwa.SignatureAlgorithm,
 	if err != nil {
 		return "", fmt.Errorf("invalid JWT headers: %w", err)
 	}
+	if jwkHeader := hdr.JWK(); jwkHeader != nil {
+		// Same rule as SignJWS: the 'jwk' header (if present) must not (accidentally) contain a private key,
+		// that would leak the private key material in the resulting JWT.
+		var jwkAsPrivateKey crypto.Signer
+		if err := jwkHeader.Raw(&jwkAsPrivateKey); err == nil {
+			return "", errors.New("refusing to sign JWT with private key in JWK header")
+		}
+	}
 
 	sig, err = jwt.Sign(t, jwt.WithKey(jwa.SignatureAlgorithm(alg.String()), key, jws.WithProtectedHeaders(hdr)))
 	token = string(sig)
